@@ -97,8 +97,8 @@ check("C01", "fault_enumeration",
 
 
 check("C02", "exploration",
-      "For every spec/Go pair with an adapter (all systems/* pairs except replicatedkv/raftres, and the compiler test pairs) the real generated archetypes run one attempt at a time under seeded schedules over harness resources implementing the spec's mapping macros exactly; every committed step changes the exact global state, and the recorded state sequence is validated by TLC against the shipped translation (for the test pairs: the .expectpcal translated by pcal): each consecutive pair must be a step of Next with every variable pinned, the first state must satisfy Init, and a Go assertion failure must coincide with a spec assertion failure from the same state. Coverage is reported per pair as labels whose steps TLC accepted.",
-      "Held on the recorded runs only; reachable pre-states and choice resolutions are sampled by the scheduler. TLC is an evaluator here, not an explorer. A spec-level assertion failure that TLC finds enabled in a visited state (not taken by Go) voids that trace and is noted, not reported. Pairs without an adapter (replicatedkv, raftres) are not claimed.",
+      "For every spec/Go pair with an adapter (all systems/* pairs except raftres, and the compiler test pairs) the real generated archetypes run one attempt at a time under seeded schedules over harness resources implementing the spec's mapping macros exactly; every committed step changes the exact global state, and the recorded state sequence is validated by TLC against the shipped translation (for the test pairs: the .expectpcal translated by pcal): each consecutive pair must be a step of Next with every variable pinned, the first state must satisfy Init, and a Go assertion failure must coincide with a spec assertion failure from the same state. Coverage is reported per pair as labels whose steps TLC accepted.",
+      "Held on the recorded runs only; reachable pre-states and choice resolutions are sampled by the scheduler. TLC is an evaluator here, not an explorer. A spec-level assertion failure that TLC finds enabled in a visited state (not taken by Go) voids that trace and is noted, not reported. Pairs without an adapter (raftres, which the property does not name) are not claimed. replicated_kv.tla, proxy.tla and load_balancer.tla ship stale TLA+ translation blocks; where the shipped block does not match the PlusCal in the same file the trace is validated against the block regenerated by pcal.",
       "runtime monitoring: recorded executions of the real generated code validated offline, step by step, by TLC against the shipped spec (translation validation over observed traces)", "simsched+tlc")
 
 
@@ -118,8 +118,8 @@ check("C07", "exploration",
       "runtime monitoring: serializability checking over recorded section histories (dependency graph + commit-order replay) with lock hooks and the race detector", "direct")
 
 check("C16", "exploration",
-      "For every other generated system with an adapter (dqueue, loadbalancer, proxy with perfect and practical FD, shcounter, gcounter, shopcart, nestedcrdtimpl) the shipped archetypes run one attempt at a time under eight scheduling policies over harness resources implementing the spec's mapping macros (unique ids where the spec uses constants), with Go monitors after every committed step: no spec assertion fails, exactly-once in-order delivery to requesting consumers and conservation (dqueue), BuffersOk and exactly one answer per request (loadbalancer), ProxyOK and its history form (proxy, perfect FD), final value = NUM_NODES (shcounter), equal knowledge => equal read and monotonic counters (CRDT systems); spec-exact traces are validated by TLC with the specs' invariants as written. Real TCP runs of dqueue, loadbalancer and proxy (with backend crashes) are judged by the same counting oracles at the input/output channels.",
-      "replicatedkv has no wiring or tests in-tree and is not covered. proxy.tla's shipped TLA+ block is stale w.r.t. its own PlusCal (validated against the regenerated translation as well). The shopcart AWORSet spec-level anomaly (equal knowledge, unequal state after removes) is an open known finding. Liveness properties are restated at termination.",
+      "For every other generated system with an adapter (dqueue, loadbalancer, proxy with perfect and practical FD, shcounter, gcounter, shopcart, nestedcrdtimpl, replicatedkv) the shipped archetypes run one attempt at a time under eight scheduling policies over harness resources implementing the spec's mapping macros (unique ids where the spec uses constants), with Go monitors after every committed step: no spec assertion fails, exactly-once in-order delivery to requesting consumers and conservation (dqueue), BuffersOk and exactly one answer per request (loadbalancer), ProxyOK and its history form (proxy, perfect FD), final value = NUM_NODES (shcounter), equal knowledge => equal read and monotonic counters (CRDT systems); spec-exact traces are validated by TLC with the specs' invariants as written. Real TCP runs of dqueue, loadbalancer and proxy (with backend crashes) are judged by the same counting oracles at the input/output channels.",
+      "replicatedkv has no wiring or tests in-tree and is covered in simulation only (three spec-level findings with two clients are open known findings). proxy.tla's shipped TLA+ block is stale w.r.t. its own PlusCal (validated against the regenerated translation as well). The shopcart AWORSet spec-level anomaly (equal knowledge, unequal state after removes) is an open known finding. Liveness properties are restated at termination.",
       "runtime monitoring: invariant and conservation monitors at commit boundaries of serialised schedules + offline TLC evaluation + counting oracles on real TCP runs", "simsched+tlc+tcp")
 
 check("C19", "exploration",
